@@ -60,7 +60,7 @@ def work(tasks, idx):
     return res
 
 
-def small_modulus_sweep(res, hierarchy=False, flip=False):
+def small_modulus_sweep(res, hierarchy=False, flip=False, driver_ok=False):
     """Stored RSA keys too small for the hash their algorithm names (PS512 under a 512..520-bit modulus, PS384 under < 393 bits,
     PS256 under < 265 bits, and their PKCS#1 v1.5 counterparts): no octet string is a valid signature under such a key, so whatever
     is presented must be refused. Such keys cannot be generated with the crypto library but load from a COSE key all the same.
@@ -69,6 +69,8 @@ def small_modulus_sweep(res, hierarchy=False, flip=False):
     import hashlib
     from .. import cases
     signer = [c for c in _auth.creds() if core.key_kind(c.priv) == "rsa"][0]
+    drv = Driver(Oracle()) if driver_ok else None
+    tie = corr.Tie(res, drv, "eq") if drv else None
     a0, e0, _ = faults.build_assertion(signer, flags=core.UP | core.UV)
     algs = {"PS256": core.PS256, "PS384": core.PS384, "PS512": core.PS512, "RS256": core.RS256, "RS384": core.RS384, "RS512": core.RS512}
     for name, alg in algs.items():
@@ -89,6 +91,9 @@ def small_modulus_sweep(res, hierarchy=False, flip=False):
                 code = cases.run_auth(a, e)
                 res.evaluations += 1
                 res.count("small-modulus:" + corr.kind(code))
+                if tie is not None:
+                    # the model's `sigSeen` (what verify_signature makes of a primitive that raises) against the code
+                    tie.check(cases.auth_case(a, e), code, label=["small-modulus", name, bits])
                 res.nontrivial.add(("small-modulus", name, bits, sig[:4]))
                 if hierarchy:
                     # C19's reading: the response is well-formed and is refused because no signature verifies - a semantic
@@ -117,6 +122,8 @@ def small_modulus_sweep(res, hierarchy=False, flip=False):
                                                   f"signature can verify (presented signature: {sig.hex()[:40]}...)",
                                            "case": cases.auth_case(a, e), "code": code,
                                            "match": {"op": "verify_auth", "fault": "A.key-too-small-for-hash", "alg": name, "bits": bits}})
+    if drv:
+        drv.close()
 
 
 def run(ctx, res):
@@ -136,7 +143,7 @@ def run(ctx, res):
                 tasks.append((ci, pair, rng.randrange(30)))
     work.driver_ok = ctx.driver_ok
     corr.merge(res, corr.parallel(work, tasks))
-    small_modulus_sweep(res)
+    small_modulus_sweep(res, driver_ok=ctx.driver_ok)
     res.rule = ("authenticator/client simulator with real keys x fault catalogue (27 named deviations, each re-signed): per "
                 "credential algorithm 1 valid + every single fault + random subsets (thorough: all pairs); distinct = "
                 "(credential algorithm, fault set, client-data/origin/policy variant); every case is non-trivial (validly signed)")
